@@ -74,7 +74,9 @@ pub fn dump_xml(xml: &[u8]) -> (Vec<String>, Vec<String>) {
         }
     };
     let mut table: BTreeMap<String, (Option<u64>, Option<u32>)> = BTreeMap::new();
-    for s in strings {
+    // numbers are parsed after trimming: the table needs the trimmed texts as well
+    let trimmed: Vec<String> = strings.iter().map(|s| s.trim().to_string()).filter(|t| !t.is_empty()).collect();
+    for s in strings.into_iter().chain(trimmed) {
         let a = s.parse::<f64>().ok().map(|f| f.to_bits());
         let b = s.parse::<f32>().ok().map(|f| f.to_bits());
         if a.is_some() || b.is_some() {
